@@ -330,8 +330,29 @@ fn on_yield<F: Flav>(st: &RefCell<St<F>>, case: &Case, e: &F::Edge, owner_is_dst
     x.since_last_add <= bound && x.yields <= 50 * bound
 }
 
+fn script_is_pure(script: &[SOp]) -> bool {
+    script.iter().all(|o| matches!(o, SOp::Query(_) | SOp::Nested(..) | SOp::Container(_, 2)))
+}
+
 pub fn run_case<F: Flav>(case: &Case, rep: &mut Report) -> Vec<String> {
-    run_case_full::<F>(case, rep).0
+    let (mut msgs, ylog, _) = run_case_full::<F>(case, rep);
+    if msgs.is_empty() && script_is_pure(&case.script) {
+        // queries, nested searches and container lookups from inside the loop do not change the graph:
+        // the loop must yield exactly what it yields without them
+        let mut plain = case.clone();
+        plain.script = vec![];
+        let mut scratch = Report::new();
+        let (_, ybase, _) = run_case_full::<F>(&plain, &mut scratch);
+        rep.count("pure_script_cases_compared_with_baseline");
+        if ybase != ylog {
+            msgs.push(format!(
+                "a query / nested search / lookup from inside the loop changed what the loop yields: {:?} with the script, {:?} without",
+                ylog.iter().take(12).collect::<Vec<_>>(),
+                ybase.iter().take(12).collect::<Vec<_>>()
+            ));
+        }
+    }
+    msgs
 }
 
 /// As `run_case`, also returning the sequence of yielded edges and the final adjacency (for the
@@ -356,6 +377,18 @@ pub fn run_case_full<F: Flav>(case: &Case, rep: &mut Report) -> (Vec<String>, Ve
         let t = (F::key(F::e_src(&e)), F::key(F::e_dst(&e)), *F::e_val(&e));
         (e, t)
     }).collect();
+    // a path obtained before the loop
+    let early_path: Option<(PathH<F>, Vec<(K, K, Eid)>)> = (0..case.n as K).filter(|t| *t != case.root).find_map(|t| {
+        let mut cfg = Cfg::new(Algo::Bfs, Mode::Path);
+        cfg.target = Some(t);
+        match F::search(&w.nodes[case.root as usize], &cfg, None) {
+            Out::Path(Some(p)) => {
+                let es = p.iter_edges().iter().map(|e| (F::key(F::e_src(e)), F::key(F::e_dst(e)), *F::e_val(e))).collect();
+                Some((p, es))
+            }
+            _ => None,
+        }
+    });
     let root_h = w.nodes[case.root as usize].clone();
     let st = RefCell::new(St::<F> {
         w,
@@ -429,6 +462,16 @@ pub fn run_case_full<F: Flav>(case: &Case, rep: &mut Report) -> (Vec<String>, Ve
     for (e, t) in &early_edges {
         if (F::key(F::e_src(e)), F::key(F::e_dst(e)), *F::e_val(e)) != *t {
             msgs.push("an edge value obtained before the loop changed".into());
+        }
+    }
+    if let Some((p, es)) = &early_path {
+        match catch(|| p.iter_edges().iter().map(|e| (F::key(F::e_src(e)), F::key(F::e_dst(e)), *F::e_val(e))).collect::<Vec<_>>()) {
+            Ok(now) => {
+                if &now != es {
+                    msgs.push("a path obtained before the loop reports different edges afterwards".into());
+                }
+            }
+            Err(pn) => msgs.push(format!("a path obtained before the loop cannot be read afterwards: {}", pn)),
         }
     }
     // the state after the loop is the model (mutations had their normal effect), and is coherent
@@ -577,10 +620,11 @@ fn report<F: Flav>(rep: &mut Report, c: &Case, msgs: &[String]) {
     );
 }
 
-pub fn run<F: Flav>(rep: &mut Report, max_n: usize, max_e: usize, random: u64, shard: u64, nshards: u64, rng: &mut Rng) {
+pub fn run<F: Flav>(rep: &mut Report, max_n: usize, max_e: usize, random: u64, shard: u64, nshards: u64, rng: &mut Rng, case_stride: u64) {
     let loops = all_loops(F::DIRECTED);
     let scripts = single_scripts();
     let mut idx = 0u64;
+    let mut case_no = 0u64;
     for n in 2..=max_n {
         for ne in 0..=max_e {
             let total = ((n * n) as u64).pow(ne as u32);
@@ -595,6 +639,10 @@ pub fn run<F: Flav>(rep: &mut Report, max_n: usize, max_e: usize, random: u64, s
                     for root in 0..n as K {
                         for step in 0..(ne + 1).min(3) {
                             for (si, script) in scripts.iter().enumerate() {
+                                case_no += 1;
+                                if case_no % case_stride.max(1) != 0 {
+                                    continue;
+                                }
                                 let c = Case {
                                     n,
                                     edges: edges.clone(),
